@@ -142,13 +142,16 @@ func (node *PFCPNode) NewPFCPConn(lAddr, rAddr string, buf []byte) *PFCPConn {
 
 	p.setLocalNodeID(node.upf.nodeID)
 
+	// Update map of connections. This must happen before the first message is
+	// handled: if that message ends the connection (Association Release), the
+	// exit notice must find the entry, or a dead connection stays registered
+	// and every later datagram from the peer is dropped.
+	node.pConns.Store(rAddr, p)
+
 	if buf != nil {
 		// TODO: Check if the first msg is Association Setup Request
 		p.HandlePFCPMsg(buf)
 	}
-
-	// Update map of connections
-	node.pConns.Store(rAddr, p)
 
 	go p.Serve()
 
